@@ -6,5 +6,6 @@ int main(int argc, char **argv) {
     vf::opts o(argc, argv);
     vf::install_crash_handler();
     RUN("scheduling_programs", 1, true, scn::scheduling_programs(o, R, o.cases));
+    RUN("pool_stop_from_coroutine", 1, true, scn::pool_stop_from_coroutine(o, R, o.cases / 40 + 1));
     return 0;
 }
